@@ -5,6 +5,8 @@ cd "$(dirname "$(readlink -f "$0")")"
 export GOFLAGS=-mod=mod GOPROXY=off GOSUMDB=off GOTOOLCHAIN=local
 prop="${1:-all}"
 mkdir -p bin work
+# registry of generated TLV models, rediscovered from /repo's current tree (C04, C13)
+go run ./cmd/c13scan internal/reg/zz_registry.go >work/c13scan.log 2>&1 || { cat work/c13scan.log; exit 1; }
 go build -tags verif -o bin/vdriver.tmp ./cmd/vdriver || exit 1
 mv bin/vdriver.tmp bin/vdriver
 case "$prop" in
